@@ -8,7 +8,8 @@ answers with the model's snapshots (`impl`), the Spec verdict on every *python* 
 the Spec verdict on every model state (`implok`), and a branch atom.
 
 Snapshot: `((D d…) (G g…) (R g…) (n nData nGroup sgCount) (ds (sub…)…) (gs (sub…)…)
-(gv (state label style)…) (lb l…) (rd (name state label style same)…))`, `sub = (name data group)`.
+(gv (state label style)…) (lb l…) (rd (name state label style same)…) (cs (cmd…) (cmd…)))`,
+`sub = (name data group)`, `cmd = (a d) | (r d)` (command and redo stacks, most recent first).
 Subset names are canonical: numbered in order of first appearance while walking `ds` then `gs`,
 snapshot after snapshot (both sides use the same walk). -/
 open GlueVerif GlueVerif.Sexp GlueVerif.Collection
@@ -26,6 +27,10 @@ def opOf? : Sexp → Option Op
   | .list (.atom "mrg" :: ds) => (ds.mapM toNat?).map .merge
   | .list [.atom "seti", k, d] => do some (.setItem (← k.toNat?) (← d.toNat?))
   | .list [.atom "rst"] => some .restore
+  | .list [.atom "ca", d] => d.toNat?.map (.doCmd true)
+  | .list [.atom "cr", d] => d.toNat?.map (.doCmd false)
+  | .list [.atom "undo"] => some .undo
+  | .list [.atom "redo"] => some .redo
   | _ => none
 
 abbrev Ren := List (Nat × Nat)
@@ -47,6 +52,13 @@ def subSexp (m : Ren) (s : Sub) : Sexp := .list [ofNat (renLookup m s.id), optNa
 
 def dedupIds (xs : List Nat) : List Nat := xs.foldl (fun acc x => if acc.contains x then acc else acc ++ [x]) []
 
+def cmdSexp (c : Bool × Nat) : Sexp := .list [.atom (if c.1 then "a" else "r"), ofNat c.2]
+
+def cmdOf? : Sexp → Option (Bool × Nat)
+  | .list [.atom "a", d] => d.toNat?.map fun n => (true, n)
+  | .list [.atom "r", d] => d.toNat?.map fun n => (false, n)
+  | _ => none
+
 def snapshot (m : Ren) (st : State) : Sexp :=
   let gv := fun (v : GVals) => Sexp.list [valSexp v.state, valSexp v.label, valSexp v.style]
   let seen := dedupIds ((allSubs st).map (·.id))
@@ -60,7 +72,8 @@ def snapshot (m : Ren) (st : State) : Sexp :=
     tagged "lb" ((List.range st.nData).map fun d => ofNat (st.dlabel d)),
     tagged "rd" (seen.filterMap fun k => (subOf k).map fun s =>
       let v := readSub st s
-      .list [ofNat (renLookup m k), valSexp v.state, valSexp v.label, valSexp v.style, ofBool true])]
+      .list [ofNat (renLookup m k), valSexp v.state, valSexp v.label, valSexp v.style, ofBool true]),
+    tagged "cs" [.list (st.done.map cmdSexp), .list (st.undone.map cmdSexp)]]
 
 /-! ### parsing a python snapshot into an observed `State` + reads -/
 
@@ -84,7 +97,8 @@ def tableOf {α : Type} (xs : List α) (dflt : α) : Nat → α := fun k => xs.g
 def parseSnap (colors : Nat) : Sexp → Option (State × List Read)
   | .list [.list (.atom "D" :: ds), .list (.atom "G" :: gs), .list (.atom "R" :: rs),
            .list [.atom "n", nd, ng, sg], .list (.atom "ds" :: dss), .list (.atom "gs" :: gss),
-           .list (.atom "gv" :: gvs), .list (.atom "lb" :: lbs), .list (.atom "rd" :: rds)] => do
+           .list (.atom "gv" :: gvs), .list (.atom "lb" :: lbs), .list (.atom "rd" :: rds),
+           .list [.atom "cs", .list dn, .list un]] => do
     let D ← ds.mapM toNat?
     let G ← gs.mapM toNat?
     let R ← rs.mapM toNat?
@@ -108,7 +122,8 @@ def parseSnap (colors : Nat) : Sexp → Option (State × List Read)
     let st : State := { nData := nData, nGroup := nGroup, nSub := 0, sgCount := ← sg.toNat?, nColors := colors,
                         datasets := D, groups := G, subs := R,
                         dsubs := tableOf dsubs [], gsubs := tableOf gsubs [],
-                        gvals := tableOf gvals ⟨.auto 0, .auto 0, .auto 0⟩, dlabel := tableOf lbl 0 }
+                        gvals := tableOf gvals ⟨.auto 0, .auto 0, .auto 0⟩, dlabel := tableOf lbl 0,
+                        done := ← dn.mapM cmdOf?, undone := ← un.mapM cmdOf? }
     some (st, reads)
   | _ => none
 
@@ -118,7 +133,7 @@ def pySnapOk (colors : Nat) (e : Sexp) : Bool :=
   | none => false
 
 /-- classification of the op sequence for the evidence: does it re-append a removed dataset while a
-group is live (`r`), restore (`s`), merge / setitem (`m`), remove a group (`g`). -/
+group is live (`r`), restore (`s`), merge / setitem / undo / redo (`m`), remove a group (`g`). -/
 def branchOf (n colors : Nat) (ops : List Op) : String :=
   let rec go (st : State) (removed : List Nat) (r s m g : Bool) : List Op → (Bool × Bool × Bool × Bool)
     | [] => (r, s, m, g)
@@ -128,7 +143,7 @@ def branchOf (n colors : Nat) (ops : List Op) : String :=
       let back := st'.datasets.filter (fun d => !st.datasets.contains d && removed.contains d)
       let r' := r || (!back.isEmpty && !st.groups.isEmpty)
       let s' := s || (op == .restore)
-      let m' := m || (match op with | .merge _ => true | .setItem _ _ => true | _ => false)
+      let m' := m || (match op with | .merge _ => true | .setItem _ _ => true | .undo => true | .redo => true | _ => false)
       let g' := g || (match op with | .removeGroup _ => true | _ => false)
       go st' (removed ++ gone) r' s' m' g' rest
   let (r, s, m, g) := go (init n colors) [] false false false false ops
